@@ -137,7 +137,7 @@ PROPS = {
         assumptions=["'only by the licensed address itself' holds as: the signer is the licensee, an address the licensee itself fee-granted (a MsgGrantAllowance is signed by its granter), or a sale client of the configured fee granter when governance set the fee granter to a licensed address (theorems activate_only_by_licensee_or_delegate, activate_only_by_licensee_or_own_delegate; the last case is the known finding C18-feegranter-licensee)"],
     ),
     "C09": dict(
-        lean_modules=["PalomaModel.Props.C09", "PalomaModel.Props.C09Gate", "PalomaModel.Props.Consts.Schedule"], gen=["Panics.lean", "ConstTable.lean", "Atomicity.lean"],
+        lean_modules=["PalomaModel.Props.C09", "PalomaModel.Props.C09Gate", "PalomaModel.Props.Consts.Schedule", "PalomaModel.Props.Translated.C09"], gen=["Panics.lean", "ConstTable.lean", "Atomicity.lean", "Translated.lean"],
         harness_test="TestC09",
         # TestC14 (the queue harness) runs here for its `endblock` observable: after the consensus end-blocker every queued
         # message is either fully processed or exactly as it was (estimate elected <=> fees attached), whatever its neighbours did
